@@ -7,9 +7,10 @@
 EXTENDS Integers
 
 CONSTANTS AProcs, AKeys, NoKey,
-          AVals     \* the values a constructor may return (0 excluded: the zero value)
+          AVals     \* the values a constructor may return (0 = the zero value of V included)
 
-VARIABLES store,    \* store[k]: the value of k, 0 = not constructed yet
+VARIABLES store,    \* store[k]: the value of k (0, the zero value of V, is a legal value;
+                    \* whether k has been constructed is cons[k], never store[k] # 0)
           pend,     \* pend[p]: the key of p's Get in progress, NoKey = none
           cons      \* cons[k]: number of constructor invocations for k
 
@@ -27,8 +28,7 @@ AInvoke(p, k) ==
 (* The constructor runs for k and yields v: only inside a Get(k) in progress,  *)
 (* and only if k has no value yet.                                             *)
 AConstruct(k, v) ==
-    /\ v # 0
-    /\ store[k] = 0 /\ cons[k] = 0
+    /\ cons[k] = 0
     /\ \E p \in AProcs : pend[p] = k
     /\ store' = [store EXCEPT ![k] = v]
     /\ cons' = [cons EXCEPT ![k] = 1]
@@ -37,7 +37,7 @@ AConstruct(k, v) ==
 (* Get returns v: the value constructed for the key, which must exist. *)
 AReturn(p, v) ==
     /\ pend[p] # NoKey
-    /\ v # 0 /\ store[pend[p]] = v
+    /\ cons[pend[p]] = 1 /\ store[pend[p]] = v
     /\ pend' = [pend EXCEPT ![p] = NoKey]
     /\ UNCHANGED <<store, cons>>
 
